@@ -21,7 +21,7 @@ def C():
 
 
 def is_sym(x):
-    return isinstance(x, (SxInt, SxBool, SxBytes, SxStr, SxChar, WordItem))
+    return isinstance(x, (SxInt, SxBool, SxBytes, SxStr, SxChar, WordItem, SxFloat))
 
 
 def any_sym(args, kwargs=None):
@@ -403,10 +403,13 @@ class SxInt:
         return r if r is NotImplemented else r[0]
 
     def __truediv__(s, o):
-        raise Unsupported("float division of a symbolic integer")
+        return SxFloat.int_div(s, o)
 
     def __rtruediv__(s, o):
         raise Unsupported("float division by a symbolic integer")
+
+    def __float__(s):
+        raise Unsupported("float() of a symbolic integer (use the engine's float model)")
 
     def __rfloordiv__(s, o):
         raise Unsupported("division by a symbolic value")
@@ -1076,14 +1079,188 @@ class SxChar:
         return getattr(_mkstr([self], force=True), name)
 
 
+class SxFloat:
+    """IEEE-754 binary64 value (z3 FloatingPoint term) -- the result of true division of a symbolic integer.
+    Python's int/int is the correctly rounded quotient of the exact values.  Modelled exactly for
+      * a divisor that is a power of two (scaling commutes with rounding away from the subnormal range), and
+      * dividend and divisor both exactly representable (|x| <= 2^53): one IEEE division.
+    Everything else leaves the modelled subset.  (lo, hi) are python floats enclosing the value: every operation
+    used here is monotonic under round-to-nearest, so evaluating it on the end points with CPython's own floats
+    gives exact bounds."""
+    __slots__ = ("e", "lo", "hi")
+
+    def __init__(self, e, lo, hi):
+        self.e = e
+        self.lo = lo
+        self.hi = hi
+        if core.CTX is not None:
+            core.CTX.env["fp"] = True
+
+    @staticmethod
+    def of_int(x):
+        """round-to-nearest-even conversion of a (symbolic) integer, as float(x) does"""
+        if isinstance(x, SxFloat):
+            return x
+        if isinstance(x, bool):
+            x = int(x)
+        if isinstance(x, (int, float)):
+            import math
+            try:
+                f = float(x)
+            except OverflowError:
+                raise Unsupported("float conversion overflow")
+            if math.isnan(f) or math.isinf(f):
+                raise Unsupported("non-finite float")
+            return SxFloat(z3.FPVal(f, z3.Float64()), f, f)
+        lo, hi = x._tight()
+        if lo is None or hi is None:
+            raise Unsupported("float conversion of an unbounded integer")
+        if max(abs(lo), abs(hi)) >= (1 << 1023):
+            raise Unsupported("float conversion of an integer that may overflow binary64")
+        if x.is_bv:
+            e = x.e
+        else:
+            e = z3.Int2BV(x.e, _fit(lo, hi))
+        return SxFloat(z3.fpSignedToFP(z3.RNE(), e, z3.Float64()), float(lo), float(hi))
+
+    @staticmethod
+    def int_div(a, d):
+        if isinstance(d, SxInt):
+            raise Unsupported("float division by a symbolic integer")
+        if isinstance(d, bool):
+            d = int(d)
+        if isinstance(d, float):
+            if d != int(d):
+                raise Unsupported("float division by a non-integral float")
+            d = int(d)
+        if not isinstance(d, int):
+            return NotImplemented
+        if d == 0:
+            raise ZeroDivisionError("division by zero")
+        lo, hi = a._tight()
+        if lo is None or hi is None:
+            raise Unsupported("float division of an unbounded integer")
+        m = abs(d)
+        pow2 = (m & (m - 1)) == 0
+        exact = max(abs(lo), abs(hi)) <= (1 << 53) and m <= (1 << 53)
+        if not (pow2 or exact):
+            raise Unsupported("float division of a wide symbolic integer by a constant that is not a power of two")
+        if pow2 and m.bit_length() > 900:
+            raise Unsupported("float division reaching the subnormal range")
+        fa = SxFloat.of_int(a)
+        q = z3.fpDiv(z3.RNE(), fa.e, z3.FPVal(float(d), z3.Float64()))
+        b1, b2 = lo / d, hi / d          # CPython's own correctly rounded int/int
+        return SxFloat(q, min(b1, b2), max(b1, b2))
+
+    # ---- arithmetic (round to nearest even, like CPython's float)
+    def _bin(s, o, op, rev=False):
+        b = SxFloat.of_int(o) if not isinstance(o, SxFloat) else o
+        x, y = (b, s) if rev else (s, b)
+        if op == "add":
+            return SxFloat(z3.fpAdd(z3.RNE(), x.e, y.e), x.lo + y.lo, x.hi + y.hi)
+        if op == "sub":
+            return SxFloat(z3.fpSub(z3.RNE(), x.e, y.e), x.lo - y.hi, x.hi - y.lo)
+        if op == "mul":
+            c = [x.lo * y.lo, x.lo * y.hi, x.hi * y.lo, x.hi * y.hi]
+            return SxFloat(z3.fpMul(z3.RNE(), x.e, y.e), min(c), max(c))
+        raise Unsupported("float %s" % op)
+
+    def __add__(s, o):
+        return s._bin(o, "add")
+    __radd__ = __add__
+
+    def __sub__(s, o):
+        return s._bin(o, "sub")
+
+    def __rsub__(s, o):
+        return s._bin(o, "sub", True)
+
+    def __mul__(s, o):
+        return s._bin(o, "mul")
+    __rmul__ = __mul__
+
+    def __truediv__(s, o):
+        if isinstance(o, (int, float)) and not isinstance(o, bool) and o != 0 and float(o) == o:
+            m = abs(int(o))
+            if (m & (m - 1)) == 0 and m.bit_length() < 900:
+                b1, b2 = s.lo / o, s.hi / o
+                return SxFloat(z3.fpDiv(z3.RNE(), s.e, z3.FPVal(float(o), z3.Float64())), min(b1, b2), max(b1, b2))
+        raise Unsupported("float division of a symbolic float")
+
+    def __neg__(s):
+        return SxFloat(z3.fpNeg(s.e), -s.hi, -s.lo)
+
+    def _cmp(s, o, f):
+        b = SxFloat.of_int(o) if not isinstance(o, SxFloat) else o
+        return mkbool(f(s.e, b.e))
+
+    def __lt__(s, o):
+        return s._cmp(o, z3.fpLT)
+
+    def __le__(s, o):
+        return s._cmp(o, z3.fpLEQ)
+
+    def __gt__(s, o):
+        return s._cmp(o, z3.fpGT)
+
+    def __ge__(s, o):
+        return s._cmp(o, z3.fpGEQ)
+
+    def __eq__(s, o):
+        if not isinstance(o, (int, float, SxInt, SxFloat)):
+            return False
+        return s._cmp(o, z3.fpEQ)
+
+    def __ne__(s, o):
+        r = s.__eq__(o)
+        return (not r) if isinstance(r, bool) else ~r
+    __hash__ = None
+
+    def trunc(s, mode="RTZ"):
+        """int(x): truncation toward zero; floor / ceil / round-half-even with the other modes"""
+        import math
+        f = {"RTZ": math.trunc, "RTN": math.floor, "RTP": math.ceil, "RNE": round}[mode]
+        lo, hi = f(s.lo), f(s.hi)
+        w = _fit(lo, hi) + 1
+        e = z3.fpToSBV(getattr(z3, mode)(), s.e, z3.BitVecSort(w))
+        return SxInt.bv(e, lo, hi)
+
+    def __int__(s):
+        raise Unsupported("int() of a symbolic float outside the engine's call dispatch")
+
+    def __trunc__(s):
+        return s.trunc()
+
+    def __floor__(s):
+        return s.trunc("RTN")
+
+    def __ceil__(s):
+        return s.trunc("RTP")
+
+    def __round__(s, nd=None):
+        if nd is not None:
+            raise Unsupported("round(float, ndigits)")
+        return s.trunc("RNE")
+
+    def __bool__(s):
+        return bool(~s._cmp(0, z3.fpEQ))
+
+    def __float__(s):
+        raise Unsupported("realisation of a symbolic float")
+
+    def __repr__(s):
+        return "<SxFloat [%s,%s]>" % (s.lo, s.hi)
+
+
 class Numeral:
     """the numeral of a symbolic non-negative integer in base 2/10/16, length not yet decided"""
-    __slots__ = ("x", "base", "_d", "neg")
+    __slots__ = ("x", "base", "_d", "neg", "up")
 
-    def __init__(self, x, base):
+    def __init__(self, x, base, up=False):
         self.x = x
         self.base = base
         self._d = None
+        self.up = up
 
     def digits(self):
         if self._d is None:
@@ -1099,7 +1276,7 @@ class Numeral:
         """resolve into digit characters (most significant first)"""
         d = self.digits()
         x = self.x
-        alpha = "0123456789abcdef"[:self.base]
+        alpha = ("0123456789ABCDEF" if self.up else "0123456789abcdef")[:self.base]
         out = []
         if x.is_bv and self.base in (2, 16):
             step = 1 if self.base == 2 else 4
